@@ -265,8 +265,12 @@ func genHistBulk(r *rand.Rand) string {
 		left -= k
 	}
 	drain := n/2 + r.Intn(n/2+2)
+	remEvery := 12
+	if r.Intn(5) < 3 {
+		remEvery = 1 << 30 // pops only: a Remove rebuilds the slice (and with it whatever depends on the allocation)
+	}
 	for i := 0; i < drain && n > 0; i++ {
-		switch r.Intn(12) {
+		switch r.Intn(remEvery) {
 		case 0:
 			ops = append(ops, fmt.Sprintf("rem %d", r.Intn(n)))
 		case 1:
